@@ -77,6 +77,12 @@ def jobs(tier):
     js.append({"name": "sanity.lib.libClose.no_io_failure", "src": "lib_h.c", "entry": "h_libClose", "defs": ["-DV_FAIL_NEVER"], "cbmc": LUN,
                "enforce": ["libClose/c_libClose"], "functions": ["libClose", "libPutHeader"],
                "inputs": [], "cls": "P", "native": False, "timeout": 200, "assumed": LIB_ASSUMED})
+    # attribution: nothing fails inside libClose, but a section writer (libPutSection: fwrite+fflush, results ignored)
+    # failed earlier and left the stream's error indicator set -- libClose never looks at ferror()
+    js.append({"name": "lib.libClose.pending_error_from_section_writers", "src": "lib_h.c", "entry": "h_libClose",
+               "defs": ["-DV_FAIL_NEVER", "-DC18_PENDING_ALLOWED"], "cbmc": LUN,
+               "enforce": ["libClose/c_libClose"], "functions": ["libClose", "libPutHeader"],
+               "inputs": [], "cls": "P", "native": False, "timeout": 200, "assumed": LIB_ASSUMED})
     # the open side (PASSES today): fileMustOpen never returns NULL -- an open failure is reported and does not return
     def F(name, defs, fns, kind="obligation"):
         js.append({"name": name, "src": "file_h.c", "entry": "h_fileMustOpen", "defs": defs, "kind": kind,
@@ -85,6 +91,14 @@ def jobs(tier):
                    "assumed": ["c_fileEnsureDirectory (replaced, not enforced)", "fopen may return NULL nondeterministically"]})
     F("file.fileMustOpen.default_handler", [], ["fileMustOpen", "fileTryOpen", "fileDefaultHandler", "fileSetHandler"])
     F("file.fileMustOpen.compFileError", ["-DH_WITH_AXLCOMP"], ["fileMustOpen", "fileTryOpen", "compFileError", "fileSetHandler"])
+    # the close side (since the fix: every writer closes through file.c:fileClose): plain harnesses on the real text
+    for nm, defs in (("file.fileClose.default_handler", []), ("file.fileClose.compFileError", ["-DH_WITH_AXLCOMP"]),
+                     ("canary.file.fileClose.pending_error_ignored", ["-DCANARY_fileClose"])):
+        js.append({"name": nm, "src": "file_h.c", "entry": "h_fileClose", "defs": defs,
+                   "kind": "canary" if nm.startswith("canary") else "obligation",
+                   "functions": ["fileClose", "fileDefaultHandler", "fileSetHandler"] + (["compFileError"] if defs == ["-DH_WITH_AXLCOMP"] else []),
+                   "inputs": [], "cls": "P", "native": False, "timeout": 200,
+                   "assumed": ["ferror/fclose per harness/C18/iomodel.h (close may fail nondeterministically)"]})
     F("canary.file.fileMustOpen.handler_returns_null", ["-DCANARY_handler_returns_null"], ["fileMustOpen"], kind="canary")
     # sanity (must PASS): with no injected I/O failure every writer clause holds -> the red above is the I/O, not the harness
     for fn in ("emitTheIncluded", "emitTheFoamExpr"):
